@@ -1517,7 +1517,10 @@ def corpus_facts(ctx: Ctx, wd: Workdir, name: str, fmt: int, text: str, rate):
     rows = None if p is None else len(p.as_dict().get("time", []))
     want = {("rinex2_blank_line_and_single_continuation.rnx", None): 13,
             ("rinex3_tenth_second_epochs.rate=0.1.rnx", None): 4,
-            ("rinex3_tenth_second_epochs.rate=0.1.rnx", 0.1): 3}.get((name, rate))
+            ("rinex3_tenth_second_epochs.rate=0.1.rnx", 0.1): 3,
+            # event epochs (flag 4, 3) without a date, each followed by special records: ignored as a whole (outside the theorem's
+            # abstract file, whose event epochs carry a date; here model = parser is measured)
+            ("rinex3_event_epoch_without_date.rnx", None): 3}.get((name, rate))
     if want is not None and rows != want:
         ctx.violate(f"corpus:{name}:rows", f"{name} (rate {rate}): {rows} rows parsed ({err}), the file has {want} records on the grid",
                     {"corpus": name, "rate": rate, "file_text": text})
